@@ -268,6 +268,28 @@ func (c *copyCase) checkComplete(e *core.Env) {
 		sort.Strings(miss)
 		e.Violation("complete", "missing-"+classify(miss[0]), "copy returned nil (%s, %s, opts %v) but: %s", c.pairing, c.preState, c.optNames, strings.Join(miss, "; "))
 	}
+	// a copied referrer is present *as a referrer*: the target lists it for its subject
+	// (through its API, or through the fallback tag the client maintains)
+	for _, n := range needs {
+		if n.ReferrerOf == "" {
+			continue
+		}
+		if _, _, ok := tgtS.Manifest(n.Digest); !ok {
+			continue // already reported as missing
+		}
+		if c.preMan[n.Digest] && !c.force {
+			continue // it was at the target before the copy: trusted, not re-pushed
+		}
+		listed := false
+		for _, d := range tgtS.ReferrersOf(n.ReferrerOf) {
+			if d == n.Digest {
+				listed = true
+			}
+		}
+		if !listed {
+			e.Violation("complete", "referrer-not-listed", "copy returned nil and referrer %s of %s is stored at the target, but the target does not list it among the referrers of its subject", short(n.Digest), short(n.ReferrerOf))
+		}
+	}
 	for t, d := range tags {
 		if got, _ := tgtS.Tag(t); got != d {
 			e.Violation("complete", "digest-tag-missing", "digest-tag %s resolves to %q at the target, %s at the source", t, got, d)
